@@ -363,7 +363,7 @@ def run_case(case, tier="quick"):
         except (ValueError, KeyError):
             polar_seq.append(None)
         except pd.CaseTimeout:
-            polar_seq.append(None)
+            return dict(base, status="inconclusive", bucket="evaluation_time_limit")
     mism = [n for n in range(N + 1) if cond_truth[n] is not None and (polar_seq[n] is None or not pd.values_equal(polar_seq[n], cond_truth[n]))]
     if mism:
         lag = all(polar_seq[n] is not None and pd.values_equal(polar_seq[n], cond_truth[n - 1]) for n in range(2, N + 1) if cond_truth[n - 1] is not None)
